@@ -188,16 +188,57 @@ def run(repo: Repo, rep: Report, tier: str) -> None:
             return "".join(str(v.value) for v in e.values)
         return None
 
-    WL = Locals(_flatten(wsr).node)
-    lines = [_const_text(WL.inline(c.args[0])) for c in calls_in(_flatten(wsr).node) if isinstance(c.func, ast.Attribute) and c.func.attr == "write_line" and c.args
-             and _const_text(WL.inline(c.args[0]))]
-    want = {"async for chunk in iter_bytes(response):": "yield chunk", "async for chunk in iter_sse_events_text(response):": "yield json.loads(chunk)"}
-    for head, body in want.items():
-        sub = f"{wsr.module.relpath}:_write_strategy_based_return streaming `{head[:45]}`"
-        if head in lines and body in lines and lines.index(body) > lines.index(head):
-            rep.ok("R5.6", sub, f"emits `{head}` / `{body}`: every chunk/event of the runtime decoder is yielded, in order", wsr.loc())
+    fw = _flatten(wsr)
+    WL = Locals(fw.node)
+
+    def _texts(e: ast.AST, depth: int = 0) -> Optional[Set[str]]:
+        """every text the expression can take when it is built from literals and locals that are only ever bound to literals"""
+        ct = _const_text(e)
+        if ct is not None:
+            return {ct}
+        if isinstance(e, ast.Name) and depth < 3:
+            ds = WL.defs.get(e.id, [])
+            if ds and all(k == "assign" and v is not None for k, v, _ in ds):
+                out: Set[str] = set()
+                for _, v, _ in ds:
+                    t = _texts(v, depth + 1)
+                    if t is None:
+                        return None
+                    out |= t
+                return out if len(out) <= 8 else None
+            return None
+        if isinstance(e, ast.BinOp) and isinstance(e.op, ast.Add):
+            a_, b_ = _texts(e.left, depth), _texts(e.right, depth)
+            return {x + y for x in a_ for y in b_} if a_ is not None and b_ is not None else None
+        if isinstance(e, ast.JoinedStr):
+            acc: Set[str] = {""}
+            for v in e.values:
+                t = {str(v.value)} if isinstance(v, ast.Constant) else _texts(v.value, depth) if isinstance(v, ast.FormattedValue) and v.conversion == -1 and v.format_spec is None else None
+                if t is None:
+                    return None
+                acc = {x + y for x in acc for y in t}
+            return acc
+        return None
+
+    wl_calls = [c for c in calls_in(fw.node) if isinstance(c.func, ast.Attribute) and c.func.attr == "write_line" and c.args]
+    lines = [_texts(c.args[0]) or _texts(WL.inline(c.args[0])) for c in wl_calls]  # None = a text this rule cannot enumerate
+    import re as _re
+
+    want = {"iter_bytes": "yield {v}", "iter_sse_events_text": "yield json.loads({v})"}
+    for helper, body in want.items():
+        sub = f"{wsr.module.relpath}:_write_strategy_based_return streaming `async for … in {helper}(response):`"
+        found = False
+        for ix, ts in enumerate(lines):
+            for t in ts or ():
+                m = _re.fullmatch(r"async for (\w+) in " + helper + r"\(response\):", t.strip())
+                if m and any(body.format(v=m.group(1)) in {x.strip() for x in (later or ())} for later in lines[ix + 1:]):
+                    found = True
+        if found:
+            rep.ok("R5.6", sub, f"emits the loop over `{helper}(response)` followed by `{body.format(v='<item>')}`: every chunk/event of the runtime decoder is yielded, in order", wsr.loc())
+        elif any(ts is None and ("yield" in norm(c.args[0]) or "async for" in norm(c.args[0])) for ts, c in zip(lines, wl_calls)):
+            rep.error(f"R5.6: cannot evaluate the streaming templates of {wsr.qualname}: a `yield`/`async for` line is built from values this rule cannot enumerate")
         else:
-            rep.violation("R5.6", sub, f"{wsr.fq}|streaming|{head[:30]}", "the streaming template no longer yields every item of the runtime decoder unchanged", wsr.loc())
+            rep.violation("R5.6", sub, f"{wsr.fq}|streaming|{helper}", "the streaming template no longer yields every item of the runtime decoder unchanged", wsr.loc())
 
 
 def _streaming_runtime(repo: Repo, rep: Report) -> None:
